@@ -506,11 +506,20 @@ func C03(sp *spec.Spec, ex *rt.Exchange) *Verdict {
 		// projection is C08's business: C03 only judges non-viewed results
 		return v
 	}
-	wantTree := rt.NormKeys(Expect(sp, m.Result.Type, oc.Result, locOf, nil, 0))
+	expected := Expect(sp, m.Result.Type, oc.Result, locOf, nil, 0)
 	rrt, _ := sp.Resolve(m.Result.Type)
 	if rrt == nil {
 		rrt = m.Result.Type
 	}
+	if eo, ok := expected.(map[string]any); ok && rrt.Kind == spec.Object && resp != nil {
+		// a response with an explicit body carries only part of the result: what it does not carry cannot arrive
+		for _, a := range rrt.Attrs {
+			if !cases.RespCarried(resp, a.Name) {
+				delete(eo, a.Name)
+			}
+		}
+	}
+	wantTree := rt.NormKeys(expected)
 	for _, d := range vtree.DiffS(wantTree, ex.ClientOut.Result) {
 		attr := topAttr(d.Path)
 		loc, kind := "body", kindOf(sp, m.Result.Type)
